@@ -3,43 +3,27 @@ package chainsim
 import (
 	"testing"
 
-	"github.com/dominant-strategies/go-quai/common"
 	"github.com/dominant-strategies/go-quai/core/rawdb"
 	"verif/sim/simkit"
 )
 
 func TestExplore(t *testing.T) {
-	tape := []Op{}
-	for i := 0; i < 3; i++ {
-		tape = append(tape, Op{OpMine, 0, 0, i, 0})
-	}
-	for i := 0; i < 4; i++ {
-		tape = append(tape, Op{OpConvert, i, i, 5, 0})
-	}
-	for i := 0; i < 14; i++ {
-		tape = append(tape, Op{OpMine, i % 3, 0, i, 1})
-	}
-	tape = append(tape, Op{OpQiSpend, 0, 0, 0, 1}, Op{OpQiSpend, 1, 1, 0, 2}, Op{OpMine, 2, 0, 1, 1}, Op{OpMine, 2, 0, 2, 1}, Op{OpMine, 2, 0, 3, 1})
-	cfg := DefaultNodeConfig("n0")
-	res := runChain(t, simkit.NewTrace(), cfg, DefaultRegime(), tape, func(r *Runner) Hooks {
-		return Hooks{AfterHead: func(w *World, n *Node, bi *BlockInfo, reorg bool) {
-			blk := n.Zone().GetBlockByHash(bi.Hash)
-			us := ScanUtxos(n.DBs[2])
-			t.Logf("#%d order=%d txs=%d etxsOut=%d utxos=%d setsize=%d", bi.Number, bi.Order, len(blk.Transactions()), len(blk.OutboundEtxs()), len(us), rawdb.ReadUTXOSetSize(n.DBs[2], bi.Hash))
-			for _, tx := range blk.Transactions() {
-				if tx.Type() == 1 {
-					t.Logf("     etx type=%d value=%v to=%x", tx.EtxType(), tx.Value(), tx.To().Bytes()[:3])
-				} else {
-					t.Logf("     tx type=%d", tx.Type())
-				}
-			}
-			for i, u := range us {
-				if i < 12 {
-					t.Logf("     utxo %x:%d denom=%d lock=%v", u.Hash[:4], u.Index, u.Entry.Denomination, u.Entry.Lock)
-				}
-			}
-		}}
+	restore := DefaultRegime().Apply()
+	defer restore()
+	inBubble(t, func() {
+		w := NewWorld(nil, simkit.NewTrace())
+		n, err := w.AddNode(DefaultNodeConfig("n0"))
+		if err != nil {
+			t.Fatal(err)
+		}
+		for ctx := 0; ctx < 3; ctx++ {
+			t.Logf("ctx %d bestPh in db: %v", ctx, rawdb.ReadBestPendingHeader(n.DBs[ctx]) != nil)
+		}
+		r := &Runner{W: w, N: n, Head: w.Gen, Stats: map[string]int{}}
+		r.Step(Op{OpMine, 2, 0, 1, 0})
+		for ctx := 0; ctx < 3; ctx++ {
+			t.Logf("after mine: ctx %d bestPh in db: %v", ctx, rawdb.ReadBestPendingHeader(n.DBs[ctx]) != nil)
+		}
+		n.Stop()
 	})
-	t.Logf("%v", res.stats)
-	_ = common.Big0
 }
